@@ -81,38 +81,6 @@ func fragments(nonInitialRootAt bool) []gens.JPFrag {
 	return out
 }
 
-// fragClass is the signature coordinate of one fragment: kind plus the class
-// of its key(s) or its shape.
-func fragClass(f gens.JPFrag) string {
-	switch f.K {
-	case "child":
-		return "child(" + keyClass(string(f.Key)) + ")"
-	case "union":
-		var parts []string
-		for _, m := range f.U {
-			if m.S != nil {
-				parts = append(parts, keyClass(string(*m.S)))
-			} else {
-				parts = append(parts, "int")
-			}
-		}
-		return "union(" + strings.Join(parts, ",") + ")"
-	case "nth":
-		if f.N < 0 {
-			return "nth(neg)"
-		}
-		return "nth"
-	case "slice":
-		return fmt.Sprintf("slice(%d)", len(f.S))
-	case "filter":
-		if f.F.Leaf() {
-			return "filter(path)"
-		}
-		return "filter(" + f.F.Op + ")"
-	}
-	return f.K
-}
-
 // ------------------------------------------------------------------ data
 
 type tailorer struct {
@@ -290,7 +258,41 @@ type disc struct {
 	obs    string
 }
 
-func (d disc) key() string { return d.form + "|" + d.kind }
+// keys lists the atomic forms of a possibly merged discrepancy. Subsumption
+// is by form only: a smaller witness that is already broken in the same print
+// form (whatever the symptom) explains the larger case.
+func (d disc) keys() []string {
+	var fs []string
+	switch d.form {
+	case "dot+bracket":
+		fs = []string{"dot", "bracket"}
+	case "all":
+		fs = []string{"equation", "script", "filter"}
+	case "script+filter":
+		fs = []string{"script", "filter"}
+	default:
+		fs = []string{d.form}
+	}
+	return fs
+}
+
+// covered reports whether every (form, kind) of d is in m.
+func (d disc) covered(m map[string]bool) bool {
+	for _, k := range d.keys() {
+		if !m[k] {
+			return false
+		}
+	}
+	return true
+}
+
+func mark(m map[string]bool, ds []disc) {
+	for _, d := range ds {
+		for _, k := range d.keys() {
+			m[k] = true
+		}
+	}
+}
 
 func hasKind(x gens.JPExpr, kind string) bool {
 	for _, f := range x {
@@ -311,7 +313,7 @@ func safeString(f func() string) (s string, pk string) {
 }
 
 // checkExpr runs the oracle on one expression description.
-func checkExpr(c *core.Ctx, spec gens.JPExpr, evaluate bool) (out []disc) {
+func checkExpr(c *core.Ctx, spec gens.JPExpr, evaluate bool) (out []disc, selected bool) {
 	x := spec.Build()
 	bracketed := hasKind(spec, "bracket")
 	for _, form := range []string{"dot", "bracket"} {
@@ -344,12 +346,21 @@ func checkExpr(c *core.Ctx, spec gens.JPExpr, evaluate bool) (out []disc) {
 				out = append(out, disc{form, "prints-differently", "", fmt.Sprintf("%q", s), fmt.Sprintf("%q", s2)})
 			}
 		}
+		nBefore := len(out)
 		if !evaluate {
 			continue
 		}
 		frs := []gens.JPFrag(spec)
 		ordered := !hasKind(spec, "filter")
 		for mode := 0; mode < 3; mode++ {
+			if descentAfterMulti(spec) && (mode > 0 || !ordered) {
+				// Get descends into only one of several selected nodes (which one depends on map
+				// order: `$.*..` on a two-member object) - a Get defect outside this property that
+				// makes results on multi-key maps irreproducible; only the single-key data is used
+				// (none when a filter is present: its elements are multi-key maps).
+				c.Add("expr_map_data_skipped_descent_after_multi_selector", 1)
+				break
+			}
 			var d any
 			ord := false
 			switch mode {
@@ -362,15 +373,53 @@ func checkExpr(c *core.Ctx, spec gens.JPExpr, evaluate bool) (out []disc) {
 			}
 			rx, ry := results(c, x, d, ord), results(c, y, d, ord)
 			if rx != "0:" {
-				c.Add("expr_evaluations_selecting_something", 1)
+				selected = true
 			}
 			if rx != ry {
-				out = append(out, disc{form, "evaluates-differently", "", "Get gives " + clipS(rx), "re-parsed " + fmt.Sprintf("%q", s) + " gives " + clipS(ry) + " on " + clipS(show(d))})
+				// the difference must be reproducible, or it is map order
+				stable := true
+				for i := 0; i < 3 && stable; i++ {
+					stable = results(c, x, d, ord) == rx && results(c, y, d, ord) == ry
+				}
+				if !stable {
+					c.Add("expr_irreproducible_results_ignored", 1)
+					continue
+				}
+			}
+			if rx != ry {
+				ev := disc{form, "evaluates-differently", "", "Get gives " + clipS(rx), "re-parsed " + fmt.Sprintf("%q", s) + " gives " + clipS(ry) + " on " + clipS(show(d))}
+				if nBefore > 0 && out[nBefore-1].form == form {
+					out[nBefore-1] = ev // outranks prints-differently of the same form
+				} else {
+					out = append(out, ev)
+				}
 				break
 			}
 		}
 	}
-	return out
+	if len(out) == 2 && out[0].kind == out[1].kind && out[0].detail == out[1].detail {
+		out[0].form = "dot+bracket" // the same discrepancy in both print modes
+		out = out[:1]
+	}
+	return out, selected
+}
+
+// descentAfterMulti reports whether a Descent comes after a fragment that can
+// select several nodes.
+func descentAfterMulti(spec gens.JPExpr) bool {
+	multi := false
+	for _, f := range spec {
+		switch f.K {
+		case "desc":
+			if multi {
+				return true
+			}
+			multi = true
+		case "wild", "union", "slice", "filter":
+			multi = true
+		}
+	}
+	return false
 }
 
 func clipS(s string) string {
@@ -442,9 +491,8 @@ func (r *exprRun) failing(spec gens.JPExpr) map[string]bool {
 		return m
 	}
 	m := map[string]bool{}
-	for _, d := range checkExpr(r.c, spec, true) {
-		m[d.key()] = true
-	}
+	ds, _ := checkExpr(r.c, spec, true)
+	mark(m, ds)
 	if len(r.memo) < 200000 {
 		r.memo[k] = m
 	}
@@ -470,19 +518,91 @@ func (r *exprRun) subsumed(hd head, frs []gens.JPFrag, d disc) bool {
 		subs = append(subs, join(h, frs))
 	}
 	for _, s := range subs {
-		if r.failing(s)[d.key()] {
+		if d.covered(r.failing(s)) {
 			return true
 		}
 	}
 	return false
 }
 
-func exprSig(hd head, frs []gens.JPFrag, d disc) string {
+// coarse is the fragment class without key detail: how the fragment prints
+// in dot mode (a dotted token or a bracketed form) is what matters to its
+// neighbours.
+func coarse(f gens.JPFrag) string {
+	switch f.K {
+	case "child":
+		if s, _ := safeString(jp.C(string(f.Key)).String); strings.HasPrefix(s, "[") {
+			return "child-quoted"
+		}
+		return "child-token"
+	case "union":
+		if len(f.U) == 1 {
+			return "union-of-one"
+		}
+		return "union"
+	case "filter":
+		return "filter"
+	case "slice":
+		return "slice"
+	case "nth":
+		return "nth"
+	}
+	return f.K
+}
+
+// keySpecific returns the key classes of the witness when replacing every
+// key by a plain one makes the discrepancy disappear, else "-".
+func (r *exprRun) keySpecific(hd head, frs []gens.JPFrag, d disc) string {
+	var classes []string
+	plain := make([]gens.JPFrag, len(frs))
+	for i, f := range frs {
+		plain[i] = f
+		switch f.K {
+		case "child":
+			canon := "a"
+			if coarse(f) == "child-quoted" {
+				canon = "a b"
+			}
+			if string(f.Key) != canon {
+				classes = append(classes, keyClass(string(f.Key)))
+				plain[i] = gens.JPChild(canon)
+			}
+		case "union":
+			var ms []any
+			for _, m := range f.U {
+				if m.S != nil {
+					if string(*m.S) != "a" && string(*m.S) != "b" {
+						classes = append(classes, keyClass(string(*m.S)))
+					}
+					ms = append(ms, "a")
+				} else {
+					ms = append(ms, int(*m.I))
+				}
+			}
+			plain[i] = gens.JPUnion(ms...)
+		}
+	}
+	if len(classes) == 0 {
+		return "-"
+	}
+	if d.covered(r.failing(append(append(gens.JPExpr{}, hd.frags...), plain...))) {
+		return "-"
+	}
+	return strings.Join(classes, "+")
+}
+
+func exprSig(hd head, frs []gens.JPFrag, key string, d disc) string {
 	parts := make([]string, len(frs))
 	for i, f := range frs {
-		parts[i] = fragClass(f)
+		parts[i] = coarse(f)
 	}
-	sig := []string{"expr", "form=" + d.form, "head=" + hd.name, "frags=" + strings.Join(parts, ">"), d.kind}
+	// A Root or At that is not the first fragment has no parseable text whatever surrounds it.
+	for i, f := range frs {
+		if (f.K == "root" || f.K == "at") && (i > 0 || hd.name != "nohead" && hd.name != "bracket+nohead") {
+			return core.Sig("expr", "form="+d.form, "non-initial-"+f.K, d.kind)
+		}
+	}
+	sig := []string{"expr", "form=" + d.form, "head=" + hd.name, "frags=" + strings.Join(parts, ">"), "key=" + key, d.kind}
 	if d.detail != "" {
 		sig = append(sig, d.detail)
 	}
@@ -490,11 +610,11 @@ func exprSig(hd head, frs []gens.JPFrag, d disc) string {
 }
 
 type exprCase struct {
-	Family string       `json:"family"`
-	Expr   gens.JPExpr  `json:"expr"`
-	Form   string       `json:"form"`
-	Kind   string       `json:"kind"`
-	Text   string       `json:"text"`
+	Family string      `json:"family"`
+	Expr   gens.JPExpr `json:"expr"`
+	Form   string      `json:"form"`
+	Kind   string      `json:"kind"`
+	Text   string      `json:"text"`
 }
 
 func runExprs(c *core.Ctx) {
@@ -506,14 +626,16 @@ func runExprs(c *core.Ctx) {
 	visit := func(hd head, frs []gens.JPFrag) {
 		mine := c.Mine(idx)
 		idx++
-		if !mine {
-			return
+		if !mine || (len(frs) == 0 && hd.name == "bracket+nohead") {
+			return // a lone Bracket is only a print-mode switch, not an expression
 		}
 		spec := append(append(gens.JPExpr{}, hd.frags...), frs...)
 		c.Add("exprs", 1)
 		c.Case(func() string { return "expr " + specKey(spec) })
-		ds := checkExpr(c, spec, true)
-		c.Nontrivial()
+		ds, selected := checkExpr(c, spec, true)
+		if selected {
+			c.Nontrivial()
+		}
 		if idx%50021 == 1 {
 			s, _ := safeString(spec.Build().String)
 			b, _ := safeString(spec.Build().BracketString)
@@ -525,10 +647,13 @@ func runExprs(c *core.Ctx) {
 				continue
 			}
 			s, _ := safeString(spec.Build().String)
-			c.Fail(exprSig(hd, frs, d), exprCase{Family: "expr", Expr: spec, Form: d.form, Kind: d.kind, Text: s}, len(spec)*100+len(s), d.exp, d.obs)
+			c.Fail(exprSig(hd, frs, r.keySpecific(hd, frs, d), d), exprCase{Family: "expr", Expr: spec, Form: d.form, Kind: d.kind, Text: s}, len(spec)*100+len(s), d.exp, d.obs)
 		}
 	}
 	rec = func(hd head, frs []gens.JPFrag) {
+		if len(frs) <= 1 && c.Expired("C14 expressions") {
+			return
+		}
 		visit(hd, frs)
 		if len(frs) == maxFrags {
 			return
@@ -546,9 +671,10 @@ func runExprs(c *core.Ctx) {
 }
 
 func replayExpr(c *core.Ctx, cs exprCase) {
-	for _, d := range checkExpr(c, cs.Expr, true) {
-		if d.form == cs.Form && d.kind == cs.Kind {
-			c.Fail("replay|expr|"+d.key(), cs, len(cs.Text), d.exp, d.obs)
+	ds, _ := checkExpr(c, cs.Expr, true)
+	for _, d := range ds {
+		if (d.form == cs.Form || d.form == "dot+bracket" || cs.Form == "dot+bracket") && d.kind == cs.Kind {
+			c.Fail("replay|expr|"+d.form+"|"+d.kind, cs, len(cs.Text), d.exp, d.obs)
 		}
 	}
 }
